@@ -10,7 +10,7 @@ ALL = ["C%02d" % i for i in range(1, 21)]
 CLAIMED = {
     "C10": ("fault_enumeration",
             "exhaustive fault/interruption-point enumeration over all composites up to length 3 (4 thorough) on the real ChangeSet/History code",
-            "Every composite change enabled in a dictionary model of the tree (26 sub-change alphabet, also with a full undo list, incl. a move into a missing folder and creations over existing targets, which the file system refuses so that the composite fails by itself, nested variants, three real refactoring change sets) is executed on the real implementation once per deviation: a fault at every mutating fs command and a stop() at every task-handle notification, during do, undo and redo; after each, the tree snapshot, the identity of the history lists and a fault-free retry are checked.",
+            "Every composite change enabled in a dictionary model of the tree (26 sub-change alphabet, also with a full undo list, incl. a move into a missing folder and creations over existing targets, which the file system refuses so that the composite fails by itself, nested variants, three real refactoring change sets) is executed on the real implementation once per deviation: a fault at every mutating fs command and a stop() at every task-handle notification, during do (also after the change was previewed with get_description()), undo and redo; a stop at any notification but the very last must be reported; after each, the tree snapshot, the identity of the history lists and a fault-free retry are checked.",
             "fault model: failing command raises and has no effect; one deviation per execution; rollback runs fault-free; bounded alphabet and length", "3/C10"),
     "C11": ("model_checking",
             "explicit-state exploration of all do/undo/redo/selective/drop histories to depth 4 (5-6 thorough) on the real History, against a dictionary reference model",
@@ -30,11 +30,11 @@ CLAIMED = {
             "expected bytes computed independently of rope's codec/newline code; mixed newlines and unencodable contents excluded by the property", "3/C16"),
     "C13": ("model_checking",
             "explicit-state exploration of mutation/external-edit/query histories to depth 3 (4-5 thorough) on one long-lived real Project, differential against a brand-new Project after every sequence",
-            "Every enabled sequence over 35 events (16 mutations through rope incl. moves across the default ignore pattern, 9 changes behind rope's back + validate() (incl. two edits of a package __init__), 8 cache-warming queries incl. the scope names of a star-importing module) is replayed on a long-lived real Project with an observing AutoImport index; then files, python files, find_module, per-module source/names/scope name table/lookups/definition locations/inferred types and attribute sets, package contents, find_occurrences and the AutoImport index are compared with a brand-new Project (fresh index) on the same directory.",
+            "Every enabled sequence over 37 events (18 mutations through rope incl. removal of a package folder whose name is a prefix of a sibling's, an edit of a module two packages deep, moves across the default ignore pattern, 9 changes behind rope's back + validate() (incl. two edits of a package __init__), 8 cache-warming queries incl. the scope names of a star-importing module) is replayed on a long-lived real Project with an observing AutoImport index; then files, python files, find_module, per-module source/names/scope name table/lookups/definition locations/inferred types and attribute sets, package contents, find_occurrences and the AutoImport index are compared with a brand-new Project (fresh index) on the same directory.",
             "the fresh project is the reference; time stamps owned by a logical clock; AutoImport indexes filled with update_resource (no process pool); bounded depth and alphabet", "3/C13"),
     "C03": ("exploration",
             "bounded-exhaustive enumeration of (function body, region, options) with CPython execution before/after as the oracle",
-            "All bodies of <=2 (3) statements over 23 data-flow atoms in a function host, a method host, module-level hosts (inside a loop and directly in the module body) and a class whose classmethod/staticmethod/regular sibling methods repeat the body x every contiguous statement run at every nesting level and every sub-expression x ExtractMethod/ExtractVariable x similar/global_/kind options are refactored with the real code; each performed result is compiled and executed for inputs 0,1,2 and must print what the original printed; refusals must leave the disk unchanged.",
+            "All bodies of <=2 (3) statements over 25 data-flow atoms (incl. compound statements written on one line) in a function host, a method host, module-level hosts (inside a loop and directly in the module body) and a class whose classmethod/staticmethod/regular sibling methods repeat the body x every contiguous statement run at every nesting level and every sub-expression x ExtractMethod/ExtractVariable x similar/global_/kind options are refactored with the real code; each performed result is compiled and executed for inputs 0,1,2 and must print what the original printed; refusals must leave the disk unchanged.",
             "behaviour is compared on the enumerated inputs only; bounded body length and atom alphabet", "3/C03"),
     "C04": ("exploration",
             "bounded-exhaustive enumeration of (definition shape, call-site list, host, query point, options) with CPython execution before/after as the oracle",
@@ -46,11 +46,11 @@ CLAIMED = {
             "argument values are constants; expected bindings derived from the recorded run; a request whose resulting signature is illegal must be refused", "3/C06"),
     "C07": ("exploration",
             "bounded-exhaustive enumeration of (import block, usage pattern, target location, action, preferences) with CPython execution of the module and of a star-importing client before/after, plus idempotence",
-            "Import blocks of <=2 (3) statements over 36 forms (plain, dotted, aliased, from, multi-name, parenthesised, star, relative at two levels, __future__, a package next to an aliased import of its sub-module, two providers of one name, prefix-named modules, a chained star import, a package __init__ importing its own sub-modules) x per-statement usage (unused, module level, in a function, only in __all__, class keyword, base class, default argument, decorator) x target in the project root / a package / a sub-package x the 5 ImportOrganizer actions x preference sets are run through the real code; the target module and a client must print the same, and applying the action again must change nothing.",
+            "Import blocks of <=2 (3) statements over 36 forms (plain, dotted, aliased, from, multi-name, parenthesised, star, relative at two levels, __future__, a package next to an aliased import of its sub-module, two providers of one name, prefix-named modules, a chained star import, a package __init__ importing its own sub-modules) x per-statement usage (unused, module level, in a function, only in __all__, class keyword, base class, default argument, decorator, base of an assigned attribute) x target in the project root / a package / a sub-package x the 5 ImportOrganizer actions x preference sets are run through the real code; the target module and a client must print the same, and applying the action again must change nothing.",
             "library modules define uniquely valued names; re-exports are protected only when listed in __all__; bounded block size", "3/C07"),
     "C05": ("exploration",
             "bounded-exhaustive enumeration of (move/rename operation, client location, client import block) with CPython importing every module before/after",
-            "22 operations (MoveGlobal of a function/class/variable to 4 destinations, MoveModule of modules and a package into/out of packages, Rename of module/package/sub-package, ModuleToPackage) x client in the root / a package / a sub-package x every single import style of the moved thing, every ordered pair of styles and every style next to an unrelated import of the destination package are performed with the real code; afterwards every module must import and each client must print what it printed before. In addition: MoveMethod on 29 method shapes (parameter kinds, uses of self / the destination attribute / module globals / imports, names used only in the def header) x 4 destination-class locations x 3 new names x use in the same or another module, and 4 operations (ModuleToPackage, MoveModule to the root / to the parent package, Rename) on a nested module that carries every single and ordered pair of 9 relative/absolute imports of its own; a destination module whose last name equals a package module's; a module named like its package.",
+            "22 operations (MoveGlobal of a function/class/variable to 4 destinations, MoveModule of modules and a package into/out of packages, Rename of module/package/sub-package, ModuleToPackage) x client in the root / a package / a sub-package x every single import style of the moved thing, every ordered pair of styles and every style next to an unrelated import of the destination package are performed with the real code; afterwards every module must import and each client must print what it printed before. In addition: MoveMethod on 29 method shapes (parameter kinds, uses of self / the destination attribute / module globals / imports, names used only in the def header) x 7 destination classes (4 locations; bodies that are a lone `pass`, `pass  # comment`, or start with the letters pass) x 3 new names x use in the same or another module, and 4 operations (ModuleToPackage, MoveModule to the root / to the parent package, Rename) on a nested module that carries every single and ordered pair of 9 relative/absolute imports of its own; a destination module whose last name equals a package module's; a module named like its package.",
             "definitions carry unique values; the moved function calls a sibling helper and an imported module so lost dependencies show", "3/C05"),
     "C17": ("exploration",
             "bounded-exhaustive enumeration of target/usage shapes for EncapsulateField, IntroduceFactory, MethodObject, LocalToField and UseFunction with CPython execution before/after",
@@ -58,7 +58,7 @@ CLAIMED = {
             "behaviour = stdout + exception type of importing every module; bounded shapes", "3/C17"),
     "C01": ("exploration",
             "bounded-exhaustive enumeration of (program from scoping schemas, identifier token) with CPython execution and a symtable-validated reference binder as oracles",
-            "Every program of 16 single-module scoping schemas (incl. header expressions spanning several lines, decorator arguments, non-ASCII and soft-keyword receiver names, nonlocal through three nested functions, comprehensions in a class body, a tab-indented class) and 59 multi-module projects (incl. two star imports exporting one name) (full product of two-name menus) and 57 multi-module projects x every identifier token with a statically known in-project binding is renamed to a fresh name with the real Rename; the result must compile, every module must print the same, and the reference binder's token partition before/after must be in bijection.",
+            "Every program of 19 single-module scoping schemas (incl. a parameter rebound by a nested def/class/import of its name, header expressions spanning several lines, decorator arguments, non-ASCII and soft-keyword receiver names, nonlocal through three nested functions, comprehensions in a class body, a tab-indented class) and 59 multi-module projects (incl. two star imports exporting one name) (full product of two-name menus) and 57 multi-module projects x every identifier token with a statically known in-project binding is renamed to a fresh name with the real Rename; the result must compile, every module must print the same, and the reference binder's token partition before/after must be in bijection.",
             "reference binder validated against CPython's symtable on every program (exit 2 on disagreement); tokens it cannot bind statically are not judged; dunder names are not renamed", "3/C01"),
     "C02": ("exploration",
             "bounded-exhaustive enumeration of (program, binding class, query token) with a symtable-validated reference binder as the two-sided oracle",
